@@ -1,7 +1,7 @@
 (** Props/C11.v — pype: child context isolation, out mapping, error and stop propagation,
     and the pipeline call-stack. [rp] = the child pipeline run: every theorem holds for ALL
     child behaviours (any child pipeline, any depth of further pypes). *)
-From PV Require Import Engine EngineProofs.
+From PV Require Import Engine EngineProofs Ctl Control CtlProofs.
 Open Scope string_scope.
 Notation RG := (list val -> option string -> option string -> st -> R).
 Notation RP := (string -> option (list string) -> option (list val) -> option string -> option string -> st -> R).
@@ -109,6 +109,17 @@ Print Assumptions C11_stack_balanced.
 Theorem C11_stack_balanced_groups : forall fuel lib gs su fa, good (run_groups fuel lib gs su fa).
 Proof. exact good_run_groups. Qed.
 Print Assumptions C11_stack_balanced_groups.
+
+(** * Tie B: how a (child) pipeline starts and ends, read from the source ([Pipeline._run_pipeline]):
+    StopPipeline raised by its groups — or by its failure handler after a context-parser error —
+    ends THIS pipeline normally and goes no further; Stop and every error propagate to the pype
+    step. *)
+Theorem C11_source_pipeline_entry_is_model : forall (rg : list val -> option string -> option string -> st -> R)
+    (rfail : string -> st -> R) parser parse groups success failure s,
+  gen_run_pipeline groups success failure (prepare_context parser parse) rg (rfail_prim rfail) s
+  = run_pipeline_inner rg rfail parser parse groups success failure s.
+Proof. exact gen_run_pipeline_is_model. Qed.
+Print Assumptions C11_source_pipeline_entry_is_model.
 
 (** * Non-vacuity: child fails after mutating; parent isolated, carries on, call resolves in parent *)
 Definition T (nm : string) (b : body) (inn : dict) : step :=
